@@ -18,6 +18,7 @@ import (
 	"flag"
 	"fmt"
 	"go/ast"
+	"go/constant"
 	"go/token"
 	"go/types"
 	"path/filepath"
@@ -120,6 +121,11 @@ type collector struct {
 
 	ctorUses, opUses, timeUses, footprint, calls [][]string
 	authority                                    [][]string
+
+	// edges: "dir:Func" -> set of "dir:Func" for every call between functions of the scanned packages
+	edges map[string]map[string]bool
+	// funcs: every scanned function "dir:Func" -> is it an entry point (exported name)
+	funcs map[string]bool
 }
 
 func (c *collector) rel(dir, name string) string { return dir + "/" + name }
@@ -169,6 +175,19 @@ func (c *collector) scanFunc(p *astx.Package, dir, file string, fd *ast.FuncDecl
 	}
 	recv := astx.RecvName(fd)
 	authCheck := false
+	self := dir + ":" + fn
+	if c.funcs == nil {
+		c.funcs, c.edges = map[string]bool{}, map[string]map[string]bool{}
+	}
+	c.funcs[self] = ast.IsExported(fd.Name.Name)
+	edge := func(f *types.Func) {
+		if to := c.calleeKey(f); to != "" {
+			if c.edges[self] == nil {
+				c.edges[self] = map[string]bool{}
+			}
+			c.edges[self][to] = true
+		}
+	}
 
 	astx.WalkStack(fd.Body, func(n ast.Node, stack []ast.Node) bool {
 		// ---- authority: k.authority may only be compared in the two known ways ----
@@ -222,9 +241,12 @@ func (c *collector) scanFunc(p *astx.Package, dir, file string, fd *ast.FuncDecl
 		sel, ok := call.Fun.(*ast.SelectorExpr)
 		if !ok {
 			// plain call of a function of the same package
-			if id, ok := call.Fun.(*ast.Ident); ok && keeper {
+			if id, ok := call.Fun.(*ast.Ident); ok {
 				if f, ok := p.Info.Uses[id].(*types.Func); ok && f.Pkg() != nil {
-					c.recordCall(file, fn, f)
+					edge(f)
+					if keeper {
+						c.recordCall(file, fn, f)
+					}
 				}
 			}
 			return true
@@ -241,8 +263,9 @@ func (c *collector) scanFunc(p *astx.Package, dir, file string, fd *ast.FuncDecl
 			case pp == c.mathPath && c.decFuncs[m] && ops:
 				c.opUses = append(c.opUses, []string{file, fn, m})
 			}
-			if keeper {
-				if f, ok := p.Info.Uses[sel.Sel].(*types.Func); ok {
+			if f, ok := p.Info.Uses[sel.Sel].(*types.Func); ok {
+				edge(f)
+				if keeper {
 					c.recordCall(file, fn, f)
 				}
 			}
@@ -253,6 +276,9 @@ func (c *collector) scanFunc(p *astx.Package, dir, file string, fd *ast.FuncDecl
 		rt := p.TypeOf(sel.X)
 		if ops && rt != nil && isNamed(rt, c.mathPath, "Dec") && c.decMethods[m] {
 			c.opUses = append(c.opUses, []string{file, fn, m})
+		}
+		if f, ok := p.Info.Uses[sel.Sel].(*types.Func); ok {
+			edge(f)
 		}
 		if keeper {
 			if f, ok := p.Info.Uses[sel.Sel].(*types.Func); ok {
@@ -374,6 +400,96 @@ func (c *collector) recordCall(file, fn string, f *types.Func) {
 	c.calls = append(c.calls, []string{file, fn, dir + ":" + name})
 }
 
+// constStringInPackage evaluates e as a constant string: in file f, or, when e is an identifier that f does not
+// declare, in the sibling file of the package directory that declares it.
+func constStringInPackage(f *astx.File, dir string, e ast.Expr, what string) string {
+	if v, err := f.Eval(e, nil); err == nil && v.Kind() == constant.String {
+		return constant.StringVal(v)
+	}
+	if id, ok := e.(*ast.Ident); ok {
+		files, _ := filepath.Glob(filepath.Join(dir, "*.go"))
+		sort.Strings(files)
+		for _, p := range files {
+			if strings.HasSuffix(p, "_test.go") || generated(p) {
+				continue
+			}
+			g := astx.Load(p, p)
+			if _, has := g.Specs[id.Name]; has {
+				return g.MustString(id, nil, what)
+			}
+		}
+	}
+	die("%s: %s is not a constant string: %s", f.Pos(e), what, astx.Str(e))
+	return ""
+}
+
+// calleeKey names a function or method of x/ecocredit as "dir:Recv.Name" ("" for anything else, for interface
+// methods and for methods of unnamed types).
+func (c *collector) calleeKey(f *types.Func) string {
+	if f.Pkg() == nil {
+		return ""
+	}
+	pp := f.Pkg().Path()
+	if !strings.HasPrefix(pp, c.ecoPath+"/") {
+		return ""
+	}
+	dir := strings.TrimPrefix(pp, c.ecoPath+"/")
+	name := f.Name()
+	if sig, isSig := f.Type().(*types.Signature); isSig && sig.Recv() != nil {
+		_, tn, named := astx.NamedType(sig.Recv().Type())
+		if !named {
+			return ""
+		}
+		if _, isIface := sig.Recv().Type().Underlying().(*types.Interface); isIface {
+			return ""
+		}
+		name = tn + "." + name
+	}
+	return dir + ":" + name
+}
+
+// closures turns per-function rows (file, function, item) into per-ENTRY-POINT rows (entry, item): an entry point
+// is a scanned function with an exported name; its items are those of every scanned function reachable from it
+// through calls (the entry itself included), as a sorted set.  The result does not depend on how the code is
+// split into unexported helpers, on the files the functions live in, on local names or on repetition.
+func (c *collector) closures(rows [][]string) [][]string {
+	own := map[string]map[string]bool{}
+	for _, r := range rows {
+		k := filepath.ToSlash(filepath.Dir(r[0])) + ":" + r[1]
+		if own[k] == nil {
+			own[k] = map[string]bool{}
+		}
+		own[k][r[2]] = true
+	}
+	var out [][]string
+	for entry, exported := range c.funcs {
+		if !exported {
+			continue
+		}
+		seen := map[string]bool{entry: true}
+		todo := []string{entry}
+		items := map[string]bool{}
+		for len(todo) > 0 {
+			f := todo[len(todo)-1]
+			todo = todo[:len(todo)-1]
+			for it := range own[f] {
+				items[it] = true
+			}
+			for to := range c.edges[f] {
+				if _, scanned := c.funcs[to]; scanned && !seen[to] {
+					seen[to] = true
+					todo = append(todo, to)
+				}
+			}
+		}
+		for it := range items {
+			out = append(out, []string{entry, it})
+		}
+	}
+	astx.SortRows(out)
+	return out
+}
+
 func main() {
 	astx.Tool = "ledgerconsts"
 	repo := flag.String("repo", "/repo", "path of the regen-ledger working tree")
@@ -413,11 +529,11 @@ func main() {
 		s, ok := b.X.(*ast.SelectorExpr)
 		return ok && s.Sel.Name == "bankDenom"
 	}) {
-		lit, ok := b.Y.(*ast.BasicLit)
-		if b.Op != token.EQL || !ok || lit.Kind != token.STRING {
+		if b.Op != token.EQL {
 			die("%s: expected `<params>.bankDenom == \"<denom>\"`, found %s", mutils.Pos(b), astx.Str(b))
 		}
-		uregen = append(uregen, mutils.MustString(lit, nil, "burn denom"))
+		// a string literal, or a named string constant of the package (same file or a sibling file)
+		uregen = append(uregen, constStringInPackage(mutils, filepath.Join(eco, "marketplace", "keeper"), b.Y, "burn denom"))
 	}
 	if len(uregen) != 1 {
 		die("%s: expected exactly one comparison `<params>.bankDenom == \"<denom>\"`, found %d", mutils.Label, len(uregen))
@@ -427,7 +543,7 @@ func main() {
 	if len(newCoin.Args) != 2 {
 		die("%s: sdk.NewCoin arity", burnKeeper.Pos(newCoin))
 	}
-	if d := burnKeeper.MustString(newCoin.Args[0], nil, "sdk.NewCoin denom"); d != uregen[0] {
+	if d := constStringInPackage(burnKeeper, filepath.Join(eco, "base", "keeper"), newCoin.Args[0], "sdk.NewCoin denom"); d != uregen[0] {
 		die("burn denoms disagree: %s uses %q, %s uses %q", mutils.Label, uregen[0], burnKeeper.Label, d)
 	}
 
@@ -715,6 +831,14 @@ func main() {
 	sb.WriteString("(* ---- calls from */keeper into */keeper and server/utils: (file, caller, \"dir:callee\"); the\n")
 	sb.WriteString("   footprint of a handler is the union over the functions reachable through these edges ---- *)\n")
 	fmt.Fprintf(&sb, "Definition keeper_calls : list (bytes * bytes * bytes) :=\n%s.\n\n", astx.CoqTuples(c.calls))
+
+	sb.WriteString("(* ---- per ENTRY POINT (exported function or method \"dir:Recv.Name\" of */keeper, */types/v1, genesis, server/utils):\n")
+	sb.WriteString("   the SET of items used by the entry point or by any scanned function it reaches through calls.  These are the\n")
+	sb.WriteString("   lists Ledger/Tie.v pins: they do not change when code moves between unexported helpers or files ---- *)\n")
+	fmt.Fprintf(&sb, "Definition entry_dec_ctors : list (bytes * bytes) :=\n%s.\n\n", astx.CoqTuples(c.closures(c.ctorUses)))
+	fmt.Fprintf(&sb, "Definition entry_dec_ops : list (bytes * bytes) :=\n%s.\n\n", astx.CoqTuples(c.closures(c.opUses)))
+	fmt.Fprintf(&sb, "Definition entry_time_cmps : list (bytes * bytes) :=\n%s.\n\n", astx.CoqTuples(c.closures(c.timeUses)))
+	fmt.Fprintf(&sb, "Definition entry_footprint : list (bytes * bytes) :=\n%s.\n\n", astx.CoqTuples(c.closures(c.footprint)))
 
 	sb.WriteString("(* ---- keeper functions that reject a request whose Authority is not k.authority:\n")
 	sb.WriteString("   `if k.authority.String() != req.Authority { return ..., err }` or `if !addr.Equals(k.authority) { ... }` ---- *)\n")
